@@ -32,6 +32,7 @@ type absState struct {
 	bools  map[string]bool // truth of opaque conditions already decided on this path
 	rels   []string        // relational facts between two symbols, as text "a<b"
 	epoch  map[string]int  // stores seen per address key (loads of a location are the same value only between stores)
+	mem    map[*ssa.Alloc]ssa.Value // last value stored into a local cell on this path (defer-spilled results, address-taken locals)
 	Blocks []*ssa.BasicBlock
 	Events []absEvent
 	Conds  []absCond // every branch taken on this path, in order
@@ -51,7 +52,7 @@ type absEvent struct {
 }
 
 func newAbsState() *absState {
-	return &absState{env: map[*ssa.Phi]ssa.Value{}, lo: map[string]int64{}, hi: map[string]int64{}, bools: map[string]bool{}, epoch: map[string]int{}}
+	return &absState{env: map[*ssa.Phi]ssa.Value{}, lo: map[string]int64{}, hi: map[string]int64{}, bools: map[string]bool{}, epoch: map[string]int{}, mem: map[*ssa.Alloc]ssa.Value{}}
 }
 
 func (s *absState) clone() *absState {
@@ -71,6 +72,9 @@ func (s *absState) clone() *absState {
 	for k, v := range s.epoch {
 		n.epoch[k] = v
 	}
+	for k, v := range s.mem {
+		n.mem[k] = v
+	}
 	n.rels = append([]string(nil), s.rels...)
 	n.Blocks = append([]*ssa.BasicBlock(nil), s.Blocks...)
 	n.Events = append([]absEvent(nil), s.Events...)
@@ -82,6 +86,15 @@ func (s *absState) clone() *absState {
 func (s *absState) resolve(v ssa.Value) ssa.Value {
 	for i := 0; i < 32; i++ {
 		v = stripChange(v)
+		if u, ok := v.(*ssa.UnOp); ok && u.Op == token.MUL {
+			if al, ok := u.X.(*ssa.Alloc); ok {
+				if mv, ok := s.mem[al]; ok {
+					v = mv
+					continue
+				}
+			}
+			return v
+		}
 		ph, ok := v.(*ssa.Phi)
 		if !ok {
 			return v
@@ -465,6 +478,14 @@ func (s *absState) branch(cond ssa.Value) (t, f *absState) {
 func (s *absState) resolveRaw(v ssa.Value) ssa.Value {
 	for i := 0; i < 32; i++ {
 		switch x := v.(type) {
+		case *ssa.UnOp:
+			if al, ok := x.X.(*ssa.Alloc); ok && x.Op == token.MUL {
+				if mv, ok := s.mem[al]; ok {
+					v = mv
+					continue
+				}
+			}
+			return v
 		case *ssa.Phi:
 			e, ok := s.env[x]
 			if !ok {
@@ -539,6 +560,9 @@ func (w *absWalker) walk(s *absState, b *ssa.BasicBlock, start int) {
 		case *ssa.Store:
 			ak := s.addrKey(x.Addr, 0)
 			s.epoch[ak]++
+			if al, ok := x.Addr.(*ssa.Alloc); ok {
+				s.mem[al] = s.resolveRaw(x.Val)
+			}
 		case *ssa.IndexAddr:
 			// the index was in range, or the path ended in a panic: index >= 0
 			if l := s.linear(x.Index); l.Sym != "" {
@@ -644,6 +668,9 @@ func (s *absState) nilness(v ssa.Value) (isNil, known bool) {
 	}
 	if definitelyNonNil(r) {
 		return false, true
+	}
+	if b, ok := s.bools["nil:"+s.key(r)]; ok {
+		return b, true
 	}
 	return false, false
 }
